@@ -59,6 +59,58 @@ Proof. reflexivity. Qed.
 Lemma gen_suffix_table : gen_name_suffix_fs = name_fs.
 Proof. reflexivity. Qed.
 
+(* ================= the reference kinds the property names ================= *)
+
+(* (referent kind, referrer kind, path): the families listed in the statement of C03.  Deleting one of
+   these rows from namereference.go makes the obligation below fail. *)
+Definition named_rules : list (string * string * string) := [
+  ("ConfigMap", "Pod", "spec/volumes/configMap/name");
+  ("ConfigMap", "Pod", "spec/containers/env/valueFrom/configMapKeyRef/name");
+  ("ConfigMap", "Pod", "spec/containers/envFrom/configMapRef/name");
+  ("ConfigMap", "Deployment", "spec/template/spec/volumes/configMap/name");
+  ("ConfigMap", "Deployment", "spec/template/spec/containers/env/valueFrom/configMapKeyRef/name");
+  ("ConfigMap", "Deployment", "spec/template/spec/containers/envFrom/configMapRef/name");
+  ("ConfigMap", "StatefulSet", "spec/template/spec/volumes/configMap/name");
+  ("ConfigMap", "DaemonSet", "spec/template/spec/volumes/configMap/name");
+  ("ConfigMap", "Job", "spec/template/spec/volumes/configMap/name");
+  ("ConfigMap", "CronJob", "spec/jobTemplate/spec/template/spec/volumes/configMap/name");
+  ("Secret", "Pod", "spec/volumes/secret/secretName");
+  ("Secret", "Pod", "spec/containers/env/valueFrom/secretKeyRef/name");
+  ("Secret", "Deployment", "spec/template/spec/volumes/secret/secretName");
+  ("Secret", "Deployment", "spec/template/spec/containers/envFrom/secretRef/name");
+  ("Secret", "Deployment", "spec/template/spec/imagePullSecrets/name");
+  ("Secret", "StatefulSet", "spec/template/spec/volumes/secret/secretName");
+  ("Secret", "Ingress", "spec/tls/secretName");
+  ("Secret", "ServiceAccount", "imagePullSecrets/name");
+  ("Service", "StatefulSet", "spec/serviceName");
+  ("Service", "Ingress", "spec/rules/http/paths/backend/service/name");
+  ("Service", "Ingress", "spec/defaultBackend/service/name");
+  ("ServiceAccount", "Pod", "spec/serviceAccountName");
+  ("ServiceAccount", "Deployment", "spec/template/spec/serviceAccountName");
+  ("ServiceAccount", "StatefulSet", "spec/template/spec/serviceAccountName");
+  ("ServiceAccount", "RoleBinding", "subjects");
+  ("ServiceAccount", "ClusterRoleBinding", "subjects");
+  ("PersistentVolumeClaim", "Pod", "spec/volumes/persistentVolumeClaim/claimName");
+  ("PersistentVolumeClaim", "Deployment", "spec/template/spec/volumes/persistentVolumeClaim/claimName");
+  ("PersistentVolumeClaim", "StatefulSet", "spec/template/spec/volumes/persistentVolumeClaim/claimName");
+  ("Role", "RoleBinding", "roleRef/name");
+  ("ClusterRole", "RoleBinding", "roleRef/name");
+  ("ClusterRole", "ClusterRoleBinding", "roleRef/name");
+  ("Deployment", "HorizontalPodAutoscaler", "spec/scaleTargetRef/name");
+  ("StatefulSet", "HorizontalPodAutoscaler", "spec/scaleTargetRef/name");
+  ("PersistentVolume", "PersistentVolumeClaim", "spec/volumeName");
+  ("StorageClass", "PersistentVolumeClaim", "spec/storageClassName");
+  ("PriorityClass", "Pod", "spec/priorityClassName");
+  ("IngressClass", "Ingress", "spec/ingressClassName")].
+
+Definition rule_present (raw : list nbr) (t : string * string * string) : bool :=
+  let '(target, rk, path) := t in
+  existsb (fun b => String.eqb (nb_kind b) target &&
+                    existsb (fun f => String.eqb (fs_kind f) rk && String.eqb (fs_path f) path) (nb_referrers b)) raw.
+
+Lemma gen_covers_named_rules : forallb (rule_present gen_nameref_raw) named_rules = true.
+Proof. vm_compute. reflexivity. Qed.
+
 (* ================= finding 1: a row that can never select anything ================= *)
 
 Lemma split_first_no_char c s x y : split_first c s = Some (x, y) -> no_char c x = true.
@@ -324,7 +376,9 @@ Definition gen_apply_steps (cs : string -> string -> bool) (nonstr : string -> b
 
 Lemma gen_history_prefix cs nonstr l r r' :
   forallb step_ok l = true -> wf_res r -> gen_apply_steps cs nonstr l r = Ok r' ->
-  wf_res r' /\ exists ext, history cs r' = (history cs r ++ ext)%list.
+  wf_res r' /\ (exists ext, history cs r' = (history cs r ++ ext)%list) /\
+  get_kind (r_node r') = get_kind (r_node r) /\
+  get_api_version (r_node r') = get_api_version (r_node r).
 Proof.
   apply history_prefix; auto using gen_prefix_table, gen_suffix_table, gen_namespace_table_ok.
 Qed.
@@ -336,4 +390,56 @@ Lemma gen_history_inv cs nonstr l r r' :
      (exists id rest, p = id :: rest /\ id_name id = get_name (r_node r))).
 Proof.
   apply history_inv; auto using gen_prefix_table, gen_suffix_table, gen_namespace_table_ok.
+Qed.
+
+(* ================= from the rename history to the first two sieves ================= *)
+
+Lemma zip_ids_gvk g v a b c id :
+  In id (zip_ids g v a b c) -> g_group (id_gvk id) = g /\ g_version (id_gvk id) = v.
+Proof.
+  revert b c. induction a as [|x a IH]; intros [|y b] [|z c] H; cbn in H; try contradiction.
+  destruct H as [<-|H]; [split; reflexivity|eauto].
+Qed.
+
+Lemma prev_ids_gvk r p id :
+  prev_ids r = Ok p -> In id p ->
+  g_group (id_gvk id) = fst (parse_group_version (get_api_version (r_node r))) /\
+  g_version (id_gvk id) = snd (parse_group_version (get_api_version (r_node r))).
+Proof.
+  unfold prev_ids. destruct (r_pnames r); [|intros H; inv H; contradiction].
+  destruct (_ && _); [|discriminate].
+  destruct (parse_group_version _) as [g v]. intros H Hin. inv H. cbn [fst snd].
+  eapply zip_ids_gvk; eauto.
+Qed.
+
+(* Whatever renaming transformers ran on a resource that entered the build fresh, either it was never
+   renamed (no previous id, same name: a reference to it is already right), or the first two sieves of
+   selectReferral accept it for its ORIGINAL name and for every rule row that selects its original
+   group / version / kind. *)
+Lemma original_referent_findable cs nonstr l r r' :
+  forallb step_ok l = true -> wf_res r -> ptriples r = [] -> gen_apply_steps cs nonstr l r = Ok r' ->
+  exists c, view cs r' = Ok c /\
+    ((c_prev c = [] /\ c_name c = get_name (r_node r)) \/
+     (prev_name_matches (get_name (r_node r)) c = true /\
+      forall tg, gvk_is_selected (gvk_of (get_api_version (r_node r)) (get_kind (r_node r)) false) tg = true ->
+                 prev_id_selected_by tg c = true)).
+Proof.
+  intros Hl Hw Hf H.
+  pose proof (history_first cs nonstr _ _ _ _ _ gen_prefix_table gen_suffix_table gen_namespace_table_ok
+                            l r r' Hl Hw Hf H) as (p & Hp & Hcase).
+  pose proof (history_prefix cs nonstr _ _ _ _ _ gen_prefix_table gen_suffix_table gen_namespace_table_ok
+                             l r r' Hl Hw H) as (_ & _ & Hk & Ha).
+  unfold view. rewrite Hp. cbn [bind]. eexists. split; [reflexivity|]. cbn [c_prev c_name].
+  destruct Hcase as [[-> Hn]|(id & rest & -> & Hid)].
+  - left. auto.
+  - right. unfold id_triple, cur_triple in Hid. inversion Hid as [[Hn Hns Hkd]].
+    split.
+    + unfold prev_name_matches. cbn [c_prev existsb]. rewrite Hn, String.eqb_refl. reflexivity.
+    + intros tg Hsel. unfold prev_id_selected_by. cbn [c_prev existsb].
+      destruct (prev_ids_gvk r' _ id Hp (or_introl eq_refl)) as [Hg Hv].
+      rewrite Ha in Hg, Hv.
+      assert (E: gvk_is_selected (id_gvk id) tg = true).
+      { unfold gvk_is_selected, gvk_of in *. cbn [g_group g_version g_kind] in Hsel.
+        rewrite Hg, Hv. first [exact Hsel | rewrite Hkd; exact Hsel]. }
+      rewrite E. reflexivity.
 Qed.
